@@ -17,6 +17,16 @@ def cross_history_etag(rep, prop, observations):
         scheme = label.split("/")[0]
         by_etag.setdefault((scheme, et), set()).add(bodyhash)
         by_body.setdefault((scheme, bodyhash), set()).add(et)
+    # git blob ids: if the ETags of a back end are blob ids of the served bytes at all, they are so everywhere
+    blob = {}
+    for o in observations:
+        if o[0] == "blobid":
+            blob.setdefault(o[1].split("/")[0], []).append(o)
+    for scheme, obs_ in blob.items():
+        good = sum(1 for o in obs_ if o[2])
+        bad = [o for o in obs_ if not o[2]]
+        if good and bad:
+            rep.violation("%s|%s|etag-not-git-blob-id" % (prop, scheme), "%d of %d observed ETags are not the git blob id of the bytes served with them (the others are)" % (len(bad), len(obs_)), {"etag": bad[0][3], "name": bad[0][4], "history_tail": bad[0][5]})
     for (scheme, et), bs in by_etag.items():
         if len(bs) > 1:
             rep.violation("%s|%s|same-etag-different-bytes" % (prop, scheme), "one ETag was observed with %d different bodies" % len(bs), {"etag": et, "bodies": sorted(bs)})
@@ -33,7 +43,7 @@ def cross_history_tags(rep, prop, observations):
         if o[0] != "tag":
             continue
         _, label, _c, tag, state, meta, rtype = o
-        if "+cfgmeta" in label:
+        if "+cfgmeta" in label.split("|")[0]:
             meta = ()
             rtype = None
         by_tag.setdefault((label, tag), set()).add((state, meta, rtype))
